@@ -1,6 +1,7 @@
 """A8 canonicalisation chains: for every typed update/query overload, the conversion path of the argument down to the bytes
 that are hashed, computed from types and resolved callees (not spelling).  Obligations: the path equals the row of the
 cross-language contract (spec/canonical.json) and sibling families agree."""
+import re
 import json
 import os
 from astu import C, ctxt, gt_pair, eq_const, reach, reach_txt, ctext, strip, strip_all, walk, txt, short, stmts_of, functions_by
@@ -181,7 +182,7 @@ def simplify(chain, guards):
         if t == "i64" and i > 0 and toks[i - 1] == "canonical":
             continue
         out.append(t)
-    sfx = " if-not-empty" if any(".empty()" in x for x in guards) else ""
+    sfx = " if-not-empty" if any(".empty()" in x or re.search(r"\(0==[A-Za-z_][A-Za-z_0-9]*\.(size|length)\(\)\)", x.replace(" ", "")) for x in guards) else ""
     return " ".join(out) + sfx
 
 
